@@ -13,7 +13,7 @@ use feos_dft::{Convolver, ConvolverFFT, DFTProfile, FunctionalContribution, Helm
 use feos_verif::cli::Cli;
 use feos_verif::configs::Rng;
 use feos_verif::trace::fxhash;
-use ndarray::{Array1, Array2, Axis as NdAxis, Ix1};
+use ndarray::{Array, Array1, Array2, Axis as NdAxis, Dimension, Ix1, Ix2, Ix3, IxDyn, RemoveAxis};
 use quantity::{Density, Moles, Temperature, Volume};
 use serde_json::{json, Value};
 use std::sync::Arc;
@@ -21,23 +21,52 @@ use std::sync::Arc;
 /// tolerances (relative), calibrated on the pinned tree; see notes/C17.md
 pub fn tol_adj(kind: GridKind) -> f64 {
     match kind {
-        GridKind::Cartesian => 1e-12,
+        GridKind::Cartesian | GridKind::Cartesian2 | GridKind::Cartesian3 => 1e-12,
         GridKind::Spherical => 5e-3,
-        GridKind::Polar => 0.5,
+        GridKind::Polar | GridKind::Cylindrical => 0.5,
     }
 }
 pub fn tol_fd(kind: GridKind) -> f64 {
     match kind {
-        GridKind::Cartesian => 1e-5,
+        GridKind::Cartesian | GridKind::Cartesian2 | GridKind::Cartesian3 => 1e-5,
         GridKind::Spherical => 3e-4,
-        GridKind::Polar => 2e-2,
+        GridKind::Polar | GridKind::Cylindrical => 2e-2,
     }
 }
 pub const TOL_NEWTON: f64 = 1e-4;
 pub const TOL_BONDS: f64 = 1e-5;
 pub const TOL_MATRIX: f64 = 1e-12;
 
-type Conv = Arc<dyn Convolver<f64, Ix1>>;
+/// the convolver of a D-dimensional grid seen through flat (rows x grid points) arrays, row-major over the grid
+struct Flat<D: Dimension> {
+    conv: Arc<dyn Convolver<f64, D>>,
+    shape: Vec<usize>,
+}
+type Conv<D> = Flat<D>;
+
+fn down<E: Dimension>(a: &Array<f64, E>) -> Array2<f64> {
+    let rows = a.shape()[0];
+    let n = a.len() / rows;
+    a.as_standard_layout().to_owned().into_shape_with_order((rows, n)).unwrap()
+}
+
+impl<D: Dimension> Flat<D>
+where
+    D::Larger: Dimension<Smaller = D>,
+{
+    fn up(&self, a: &Array2<f64>) -> Array<f64, D::Larger> {
+        let mut sh = vec![a.shape()[0]];
+        sh.extend(&self.shape);
+        a.as_standard_layout().to_owned().into_shape_with_order(IxDyn(&sh)).unwrap().into_dimensionality::<D::Larger>().unwrap()
+    }
+    fn weighted_densities(&self, rho: &Array2<f64>) -> Vec<Array2<f64>> {
+        self.conv.weighted_densities(&self.up(rho)).iter().map(down).collect()
+    }
+    fn functional_derivative(&self, pd: &[Array2<f64>]) -> Array2<f64> {
+        let v: Vec<Array<f64, D::Larger>> = pd.iter().map(|p| self.up(p)).collect();
+        down(&self.conv.functional_derivative(&v))
+    }
+}
 
 fn wsum(w: &Array1<f64>, a: &Array2<f64>, b: &Array2<f64>) -> (f64, f64) {
     // (sum, sum of absolute values) of  w_k a_{s,k} b_{s,k}
@@ -54,13 +83,16 @@ fn wsum(w: &Array1<f64>, a: &Array2<f64>, b: &Array2<f64>) -> (f64, f64) {
 }
 
 /// F = sum_k w_k phi_k and the functional derivative, both as `functional_derivative` returns them
-fn f_and_grad<F: HelmholtzEnergyFunctional>(f: &F, t: f64, rho: &Array2<f64>, conv: &Conv, w: &Array1<f64>) -> Option<(f64, Array2<f64>)> {
-    let r = std::panic::catch_unwind(std::panic::AssertUnwindSafe(|| f.functional_derivative(t, rho, conv)));
+fn f_and_grad<D: Dimension, F: HelmholtzEnergyFunctional>(f: &F, t: f64, rho: &Array2<f64>, conv: &Conv<D>, w: &Array1<f64>) -> Option<(f64, Array2<f64>)>
+where
+    D::Larger: Dimension<Smaller = D>,
+{
+    let r = std::panic::catch_unwind(std::panic::AssertUnwindSafe(|| f.functional_derivative(t, &conv.up(rho), &conv.conv)));
     match r {
         Ok(Ok((phi, g))) => {
-            let val = phi.iter().zip(w.iter()).map(|(p, w)| p * w).sum::<f64>();
+            let val = phi.as_standard_layout().iter().zip(w.iter()).map(|(p, w)| p * w).sum::<f64>();
             if val.is_finite() && g.iter().all(|x| x.is_finite()) {
-                Some((val, g))
+                Some((val, down(&g)))
             } else {
                 None
             }
@@ -82,36 +114,46 @@ fn partials<F: HelmholtzEnergyFunctional>(f: &F, t: f64, wds: &[Array2<f64>]) ->
 
 pub struct Case {
     pub kind: GridKind,
-    pub points: usize,
-    pub length: f64,
+    /// (points, length) per axis
+    pub axes: Vec<(usize, f64)>,
     pub osc: bool,
 }
 
-fn one_case<F: HelmholtzEnergyFunctional + 'static>(c: &FCfg, f: &Arc<F>, case: &Case, rng: &mut Rng, matrix: bool) -> Value {
-    let grid = funcs::make_grid(case.kind, case.points, case.length);
-    let z = grid.grids()[0].clone();
-    let w = funcs::weights(&grid);
-    let n = z.len();
+fn one_case<D, F: HelmholtzEnergyFunctional + 'static>(c: &FCfg, f: &Arc<F>, case: &Case, rng: &mut Rng, matrix: bool) -> Value
+where
+    D: Dimension + RemoveAxis + 'static,
+    D::Larger: Dimension<Smaller = D>,
+    D::Smaller: Dimension<Larger = D>,
+    <D::Larger as Dimension>::Larger: Dimension<Smaller = D::Larger>,
+{
+    let grid = funcs::make_grid_nd(case.kind, &case.axes);
+    // flat (row-major) coordinates and integration weights of the grid points
+    let (pts, w) = funcs::flat_points(&grid);
+    let z: Array1<f64> = pts.iter().map(|p| p[0]).collect();
+    let n = pts.len();
     let wf = f.weight_functions(c.t);
-    let conv: Conv = ConvolverFFT::plan(&grid, &wf, None);
-    let mut spec = funcs::sample_profile(rng, case.osc, case.length, c.sigma);
+    let conv: Conv<D> = Flat { conv: ConvolverFFT::plan(&grid, &wf, None), shape: case.axes.iter().map(|a| a.0).collect() };
+    let length = case.axes[0].1;
+    let mut spec = funcs::sample_profile(rng, case.osc, length, c.sigma);
     if std::env::var("C17_DILUTE").is_ok() && !case.osc && rng.f64() < 0.3 {
         // (off by default) interface against near-vacuum: the functionals have cut-offs / |.| kinks there (N0_CUTOFF, |lambda|),
         // i.e. points where they are not differentiable, so finite differences are not an oracle; part 1 covers those branches
         spec.eta_lo = rng.log_range(1e-9, 1e-7);
     }
-    let rho = funcs::density_profile(f.as_ref(), c, &spec, &z);
+    let lens: Vec<f64> = case.axes.iter().map(|a| a.1).collect();
+    // along the first axis the tanh / oscillating profile, smooth cosine modulation along the others
+    let rho = funcs::density_profile(f.as_ref(), c, &spec, &z) * &funcs::modulation(&pts, &lens);
     let ci = f.component_index().into_owned();
     let nseg = ci.len();
-    let bspec = funcs::sample_bump(rng, nseg, case.length);
+    let bspec = funcs::sample_bump(rng, nseg, length);
     // multiplicative perturbation  delta_s(z) = a_s b(z) rho_s(z):  smooth, compactly supported away from the boundary, and
     // rho +- eps delta stays positive for every eps < 1 (also against near-vacuum)
     let ones: Vec<f64> = vec![1.0; nseg];
-    let delta = funcs::bump(&bspec, &ones, &z) * &rho;
+    let delta = funcs::bump(&bspec, &ones, &z) * &rho * &funcs::transverse_bump(&pts, &lens);
     let support: Vec<usize> = (0..n).filter(|k| delta.column(*k).iter().any(|x| *x != 0.0)).collect();
     let mut checks: Vec<Value> = Vec::new();
     let mut failures: Vec<Value> = Vec::new();
-    let ident = json!({"config": c.name, "grid": case.kind.name(), "points": n, "length": case.length, "temperature": c.t,
+    let ident = json!({"config": c.name, "grid": case.kind.name(), "points": n, "axes(points,length)": case.axes, "length": length, "temperature": c.t,
         "profile": format!("{spec:?}"), "perturbation": format!("{bspec:?}"),
         "perturbation_support_grid_indices": [support.first(), support.last()]});
     let mut record = |name: &str, err: f64, tol: f64, extra: Value| {
@@ -172,14 +214,33 @@ fn one_case<F: HelmholtzEnergyFunctional + 'static>(c: &FCfg, f: &Arc<F>, case: 
             let mut worst = 0.0f64;
             let mut worst_at = json!(null);
             let mut entries = 0usize;
-            let cols: Vec<usize> = (n / 4..3 * n / 4).collect();
+            // interior columns: every multi-index in the middle half of its axis (at most 24 of them, seeded choice);
+            // rows k: all grid points when the grid is small, otherwise a seeded subset of 32
+            let shape: Vec<usize> = case.axes.iter().map(|a| a.0).collect();
+            let interior = |mut k: usize| {
+                let mut ok = true;
+                for d in (0..shape.len()).rev() {
+                    let i = k % shape[d];
+                    k /= shape[d];
+                    ok &= i >= shape[d] / 4 && i < (3 * shape[d]).div_ceil(4);
+                }
+                ok
+            };
+            let mut cols: Vec<usize> = (0..n).filter(|k| interior(*k)).collect();
+            while cols.len() > 24 {
+                cols.swap_remove(rng.below(cols.len()));
+            }
+            let mut krows: Vec<usize> = (0..n).collect();
+            while krows.len() > 64 {
+                krows.swap_remove(rng.below(krows.len()));
+            }
             // B columns: unit psi at (contribution, a, k)
             let mut bmat: Vec<Vec<Vec<Array2<f64>>>> = Vec::new();
             for (cix, psi) in psis.iter().enumerate() {
                 let mut per_a = Vec::new();
                 for a in 0..psi.shape()[0] {
                     let mut per_k = Vec::new();
-                    for k in 0..n {
+                    for &k in &krows {
                         let mut single: Vec<Array2<f64>> = psis.iter().map(|p| Array2::zeros(p.raw_dim())).collect();
                         single[cix][[a, k]] = 1.0;
                         per_k.push(conv.functional_derivative(&single));
@@ -196,9 +257,9 @@ fn one_case<F: HelmholtzEnergyFunctional + 'static>(c: &FCfg, f: &Arc<F>, case: 
                     for (cix, wc) in wcol.iter().enumerate() {
                         let colmax = wc.iter().fold(0.0f64, |m, x| m.max(x.abs())) * w[j];
                         for a in 0..wc.shape()[0] {
-                            for k in 0..n {
+                            for (ki, &k) in krows.iter().enumerate() {
                                 let l = w[k] * wc[[a, k]];
-                                let r = w[j] * bmat[cix][a][k][[s, j]];
+                                let r = w[j] * bmat[cix][a][ki][[s, j]];
                                 entries += 1;
                                 let den = colmax.max(1e-300);
                                 let err = (l - r).abs() / den;
@@ -253,9 +314,10 @@ fn one_case<F: HelmholtzEnergyFunctional + 'static>(c: &FCfg, f: &Arc<F>, case: 
             &Moles::from_reduced(Array1::from_vec(rho_b.iter().map(|r| r * v).collect())),
         );
         if let Ok(bulk) = bulk {
-            let profile: DFTProfile<Ix1, F> = DFTProfile::new(grid.clone(), &bulk, None, Some(&Density::from_reduced(rho.clone())), None);
-            let hook = std::panic::catch_unwind(std::panic::AssertUnwindSafe(|| profile.verif_delta_functional_derivative(&rho, &delta)));
+            let profile: DFTProfile<D, F> = DFTProfile::new(grid.clone(), &bulk, None, Some(&Density::from_reduced(conv.up(&rho))), None);
+            let hook = std::panic::catch_unwind(std::panic::AssertUnwindSafe(|| profile.verif_delta_functional_derivative(&conv.up(&rho), &conv.up(&delta))));
             if let Ok(Ok(dg)) = hook {
+                let dg = down(&dg);
                 let gmax = dg.iter().fold(0.0f64, |m, x| m.max(x.abs())).max(1e-300);
                 let mut best = f64::INFINITY;
                 let mut tried = Vec::new();
@@ -282,15 +344,16 @@ fn one_case<F: HelmholtzEnergyFunctional + 'static>(c: &FCfg, f: &Arc<F>, case: 
                     // keep exp(-q) in a moderate range
                     let dq = &dg * 0.5;
                     let ex = |q: &Array2<f64>| q.mapv(|x| (-x).exp());
-                    let an = std::panic::catch_unwind(std::panic::AssertUnwindSafe(|| profile.verif_delta_bond_integrals(&ex(&q), &dq)));
+                    let an = std::panic::catch_unwind(std::panic::AssertUnwindSafe(|| profile.verif_delta_bond_integrals(&conv.up(&ex(&q)), &conv.up(&dq))));
                     if let Ok(an) = an {
+                        let an = down(&an);
                         // the hook returns d ln I for q -> q + dq ... with the sign convention of the solver (delta_i0 = (-dq + ...) i0)
                         let amax = an.iter().fold(0.0f64, |m, x| m.max(x.abs()));
                         let mut best = f64::INFINITY;
                         let mut tried = Vec::new();
                         for eps in [1e-2, 1e-3, 1e-4] {
-                            let ip = f.bond_integrals(c.t, &ex(&(&q + &(&dq * eps))), &conv);
-                            let im = f.bond_integrals(c.t, &ex(&(&q - &(&dq * eps))), &conv);
+                            let ip = down(&f.bond_integrals(c.t, &conv.up(&ex(&(&q + &(&dq * eps)))), &conv.conv));
+                            let im = down(&f.bond_integrals(c.t, &conv.up(&ex(&(&q - &(&dq * eps)))), &conv.conv));
                             let num = (ip.mapv(f64::ln) - im.mapv(f64::ln)) / (2.0 * eps);
                             let e = (&num - &an).iter().fold(0.0f64, |m, x| m.max(x.abs())) / amax.max(1e-300);
                             tried.push(json!({"eps": eps, "rel_err": e}));
@@ -328,25 +391,56 @@ impl<'a> Visitor for SupportVisitor<'a> {
         let full = self.cli.full();
         let mut rng = Rng(self.cli.seed ^ fxhash(&c.name) ^ 0x5C17);
         let reps = self.search.unwrap_or(1);
+        let one_d = full || c.core || self.cli.opt("--only").is_some();
         for rep in 0..reps {
             for kind in [GridKind::Cartesian, GridKind::Spherical, GridKind::Polar] {
+                if !one_d {
+                    continue;
+                }
                 let sizes: &[usize] = match (kind, full) {
                     (GridKind::Cartesian, false) => &[32, 64],
                     (GridKind::Cartesian, true) => &[32, 64, 128],
                     (GridKind::Spherical, false) => &[64, 128],
                     (GridKind::Spherical, true) => &[64, 128, 256],
                     // the logarithmic polar grid needs many points before its discretisation error is small
-                    (GridKind::Polar, false) => &[1024],
-                    (GridKind::Polar, true) => &[1024, 2048],
+                    (_, false) => &[1024],
+                    (_, true) => &[1024, 2048],
                 };
                 let mut points = sizes[rng.below(sizes.len())];
                 if let Ok(p) = std::env::var("C17_POINTS") {
                     points = p.parse().unwrap();
                 }
                 let length = c.sigma * rng.range(12.0, 16.0);
-                let case = Case { kind, points, length, osc: rng.f64() < 0.5 };
+                let case = Case { kind, axes: vec![(points, length)], osc: rng.f64() < 0.5 };
                 let matrix = kind == GridKind::Cartesian && rep == 0 && (full || points == 32);
-                self.results.push(one_case(c, f, &case, &mut rng, matrix));
+                self.results.push(one_case::<Ix1, F>(c, f, &case, &mut rng, matrix));
+            }
+            // grids with two and three FFT dimensions: vector weighted densities have more than one spatial component
+            // (row layout (weight function, spatial component, segment) of the convolver is exercised for i >= 1)
+            if full || c.nd {
+                let s = c.sigma;
+                let big = full && rng.f64() < 0.5;
+                let (n0, n1) = if big { (24, 20) } else { (16, 12) };
+                let case2 = Case {
+                    kind: GridKind::Cartesian2,
+                    axes: vec![(n0, s * rng.range(7.0, 9.0)), (n1, s * rng.range(5.0, 7.0))],
+                    osc: rng.f64() < 0.5,
+                };
+                self.results.push(one_case::<Ix2, F>(c, f, &case2, &mut rng, rep == 0));
+                let case3 = Case {
+                    kind: GridKind::Cartesian3,
+                    axes: vec![(12, s * rng.range(6.0, 7.0)), (8, s * rng.range(4.0, 5.0)), (6, s * rng.range(3.0, 4.0))],
+                    osc: false,
+                };
+                self.results.push(one_case::<Ix3, F>(c, f, &case3, &mut rng, rep == 0));
+                if full || c.cyl {
+                    let casec = Case {
+                        kind: GridKind::Cylindrical,
+                        axes: vec![(1024, s * rng.range(12.0, 16.0)), (8, s * rng.range(4.0, 5.0))],
+                        osc: rng.f64() < 0.5,
+                    };
+                    self.results.push(one_case::<Ix2, F>(c, f, &casec, &mut rng, false));
+                }
             }
         }
     }
@@ -354,9 +448,9 @@ impl<'a> Visitor for SupportVisitor<'a> {
 
 pub fn run(cli: &Cli, only: Option<&str>, search: Option<usize>) -> Value {
     let mut v = SupportVisitor { cli, search, results: Vec::new() };
-    funcs::for_each(cli.full(), only, &mut v);
+    funcs::for_each_support(cli.full(), only, &mut v);
     json!({"cases": v.results,
-           "tolerances": {"adjoint": {"cartesian": tol_adj(GridKind::Cartesian), "spherical": tol_adj(GridKind::Spherical), "polar": tol_adj(GridKind::Polar)},
-                          "central_difference": {"cartesian": tol_fd(GridKind::Cartesian), "spherical": tol_fd(GridKind::Spherical), "polar": tol_fd(GridKind::Polar)},
+           "tolerances": {"adjoint": {"cartesian(1-3D)": tol_adj(GridKind::Cartesian), "spherical": tol_adj(GridKind::Spherical), "polar/cylindrical": tol_adj(GridKind::Polar)},
+                          "central_difference": {"cartesian(1-3D)": tol_fd(GridKind::Cartesian), "spherical": tol_fd(GridKind::Spherical), "polar/cylindrical": tol_fd(GridKind::Polar)},
                           "newton": TOL_NEWTON, "bonds": TOL_BONDS, "matrix": TOL_MATRIX}})
 }
